@@ -106,13 +106,16 @@ def body_attach(cube, **kw):
     second = bool(kw['second']) if 'second' in kw else False
     pre = bool(kw['pre']) if 'pre' in kw else False
     ana = bool(kw['ana']) if 'ana' in kw else False
+    sn = bool(kw['sn']) if 'sn' in kw else False      # both model attackers carry the same name
+    hn = bool(kw['hn']) if 'hn' in kw else False      # the attacker added by hand carries the name of a model attacker
+    NM = ['att0', 'att0' if sn else 'att1']
     with notrace(), reclimit():
         lg, lcf = langs.build_lang(L_MINI())
         if pre:
             # model attackers are created before the assets, so that they hold the ids 0 and 1
             from maltoolbox.model import Model
             m = Model('m', lcf)
-            early = [AttackerAttachment(name='att0'), AttackerAttachment(name='att1')]
+            early = [AttackerAttachment(name=NM[0]), AttackerAttachment(name=NM[1])]
             A = []
         else:
             m, A = mb.build_model(lcf, ['N', 'N'], names=['x', 'y:1'])
@@ -138,7 +141,7 @@ def body_attach(cube, **kw):
             if pre:
                 t = early[k]
             else:
-                t = AttackerAttachment(name='att%d' % k)
+                t = AttackerAttachment(name=NM[k])
                 m.add_attacker(t)
             if e == len(EPS) - 1:
                 t.entry_points = [(A[ai], list(steps)) for (ai, steps) in EPS[e]]
@@ -146,11 +149,12 @@ def body_attach(cube, **kw):
                 for (ai, steps) in EPS[e]:
                     for st in steps:
                         t.add_entry_point(A[ai], st)
-            want.append(('att%d' % k, sorted(set('%s:%s' % (A[ai].name, st) for (ai, steps) in EPS[e] for st in steps if st != 'nosuchstep'))))
+            want.append((NM[k], sorted(set('%s:%s' % (A[ai].name, st) for (ai, steps) in EPS[e] for st in steps if st != 'nosuchstep'))))
         g = AttackGraph(lg, m)
         if pre:
             from maltoolbox.attackgraph import Attacker as _A
-            g.add_attacker(_A(name='by hand'))      # takes graph attacker id 0
+            hand = _A(name='att0' if hn else 'by hand')
+            g.add_attacker(hand)      # takes graph attacker id 0
         if ana:
             from maltoolbox.attackgraph.analyzers.apriori import calculate_viability_and_necessity as _c
             _c(g)
@@ -160,7 +164,7 @@ def body_attach(cube, **kw):
         if twice:
             g.regenerate_graph()
             g.attach_attackers()
-        mine = [x for x in g.attackers if x.name != 'by hand']
+        mine = [x for x in g.attackers if not (pre and x is hand)]
         if len(mine) != len(want):
             return 'attach_attackers created %d attackers for %d model attackers' % (len(mine), len(want))
         ids = []
@@ -205,11 +209,11 @@ def queries(tier):
                   'AttackGraphNode.undo_compromise', 'AttackGraph.remove_attacker', 'AttackGraph.add_attacker',
                   'AttackGraph.attach_attackers'],
     ))
-    ps = [I('e0', 0, len(EPS) - 1), I('e1', 0, len(EPS)), B('l'), B('tw'), B('second'), B('pre'), B('ana')]
-    qs.append(Query(name='attach', body=body_attach, params=ps, timeout=400, pre=['not (pre and tw)'], split=['e0'],
-                    witnesses=[({}, {'e0': 2, 'e1': 3, 'l': True, 'tw': True, 'second': True, 'pre': False, 'ana': True})],
+    ps = [I('e0', 0, len(EPS) - 1), I('e1', 0, len(EPS)), B('l'), B('tw'), B('second'), B('pre'), B('ana'), B('sn'), B('hn')]
+    qs.append(Query(name='attach', body=body_attach, params=ps, timeout=400, pre=['not (pre and tw)', 'pre or not hn'], split=['e0'],
+                    witnesses=[({}, {'e0': 2, 'e1': 3, 'l': True, 'tw': True, 'second': True, 'pre': False, 'ana': True, 'sn': False, 'hn': False})],
                     bound='graph generated from a 2-asset L_MINI model with one or two model attackers whose entry points range over %s '
-                          '(incl. a step that does not exist, several steps per asset, several assets); attach once or after a regeneration, with or without a second graph generated from the same model in between' % EPS))
+                          '(incl. a step that does not exist, several steps per asset, several assets); attach once or after a regeneration, with or without a second graph generated from the same model in between; model attackers with equal names; a hand-added graph attacker (optionally with a model attacker name) present beforehand' % EPS))
     return qs
 
 
